@@ -19,16 +19,19 @@
    restrict_guarantee before a tick, (D) CR LF between two ticks.  `known_difference s` is the boolean
    that delimits these four.  The corrected statement
        forall s, in_quantifier s = true -> known_difference s = false -> lexemes_lang s = lexemes_syn s
-   is proved for all strings up to a stated length over a 24-symbol alphabet (C18_lexemes_agree_bounded)
-   and, for unbounded inputs, reduced to the two step lemmas `each lexer realises split_spec when clean`:
-   the vhdl_syntax half is proved for ALL inputs (C18_syn_is_spec); the vhdl_lang half
-   (C18_lang_is_spec, see the end of this file) is what C18_lexemes_agree_partial assumes.
+   is proved
+     * for ALL inputs without a CR byte (C18_lexemes_agree_partial; `no_cr s = true` is the one arm left open:
+       line breaks written CR or CR LF, where vhdl_lang lexes the normalised text), through the common
+       step-wise characterisation: each lexer realises split_spec when clean (C18_lang_is_spec,
+       C18_syn_is_spec, both for all inputs, proved arm by arm);
+     * for all strings up to a stated length over a 24-symbol alphabet that includes CR
+       (C18_lexemes_agree_bounded; length 4 in the thorough tier: Props/C18Sweep.v).
    The second clause (both parsers accept LRM-valid sources, the tree validates) has no theorem: it is
    explored by checks/c18.py on the bundled libraries and generated programs. *)
 From Coq Require Import List NArith Arith Bool.
 Import ListNotations.
 From RH Require Lex.LangLexer Lex.SynLexer.
-From RH Require Import Lex.LexGrammar Lex.Agree Lex.AgreeSweep.
+From RH Require Import Lex.LexGrammar Lex.Agree Lex.AgreeSweep Lex.AgreeSyn Lex.AgreeLang Lex.AgreeProofs.
 Open Scope N_scope.
 
 (* ---------- finite domain: every string of length <= 3 over ALPHA (14 425 inputs), by vm_compute ---------- *)
@@ -45,6 +48,73 @@ Example C18_bounded_example :
 Proof. split; [vm_compute; reflexivity|]. split; [vm_compute; reflexivity|]. split; [vm_compute; reflexivity|].
   repeat constructor; cbn; tauto. Qed.
 Print Assumptions C18_bounded_example.
+
+
+(* ---------- step-wise characterisation: each lexer realises split_spec when clean ---------- *)
+(* vhdl_syntax half, ALL inputs: on an input that is clean for the model of vhdl_syntax's tokenizer, has no
+   grave accent and no CR, on which no non-integer abstract literal is merged into a bit string (difference C)
+   and which does not hold the two PSL reserved words (difference A), the merged token stream spells exactly
+   the lexemes of the reference splitter.  (Proved arm by arm: trivia = separators and comments; identifiers and
+   reserved words; abstract literals; bit strings through merge_bit_string_literals; character literal versus
+   tick; strings; extended identifiers; every delimiter.) *)
+Theorem C18_syn_is_spec : forall s,
+  clean_syn s = true -> no_directive s = true -> no_cr s = true ->
+  has_nonint_bitstring s = false -> has_psl_word s = false ->
+  split_spec LangLexer.keywords_2008 s = lexemes_syn s.
+Proof. exact syn_is_spec. Qed.
+Check C18_syn_is_spec : forall s,
+  clean_syn s = true -> no_directive s = true -> no_cr s = true ->
+  has_nonint_bitstring s = false -> has_psl_word s = false ->
+  split_spec LangLexer.keywords_2008 s = lexemes_syn s.
+Print Assumptions C18_syn_is_spec.
+(* the hypotheses hold of `x"A" 12sb"0"'a'('b')'c --x LF 16#F#e1?/=\a\"q""":=1.5` (14 lexemes) *)
+Example C18_syn_is_spec_example : clean_syn ex_syn = true /\ no_directive ex_syn = true /\ no_cr ex_syn = true
+  /\ has_nonint_bitstring ex_syn = false /\ has_psl_word ex_syn = false
+  /\ length (match lexemes_syn ex_syn with Some l => l | None => [] end) = 14%nat.
+Proof. exact ex_syn_ok. Qed.
+Print Assumptions C18_syn_is_spec_example.
+
+(* vhdl_lang half, ALL inputs: on a Latin-1 input without CR, grave accent, `vhdl_ls` and `digit ':' alnum`
+   (difference B) on which the model of vhdl_lang's tokenizer pushes no diagnostic, the texts between the
+   positions of its tokens are exactly the lexemes of the reference splitter.  (Proved through the reader
+   invariant of C11: every loop of the tokenizer against span / drop_line / drop_block / quoted_rest on the
+   remaining text; pop_raw = skip_gap + lexeme_step; Tokenizer::pop = pop_raw without pragma comments.) *)
+Theorem C18_lang_is_spec : forall s : list N,
+  latin1 s = true -> clean_lang s = true -> no_directive s = true -> no_pragma s = true ->
+  no_cr s = true -> has_colon_literal s = false ->
+  lexemes_lang s = split_spec LangLexer.keywords_2008 s.
+Proof. exact lang_is_spec. Qed.
+Check C18_lang_is_spec : forall s : list N,
+  latin1 s = true -> clean_lang s = true -> no_directive s = true -> no_pragma s = true ->
+  no_cr s = true -> has_colon_literal s = false ->
+  lexemes_lang s = split_spec LangLexer.keywords_2008 s.
+Print Assumptions C18_lang_is_spec.
+
+(* LEXEME AGREEMENT for unbounded inputs.
+   FULL statement:  forall s, in_quantifier s = true -> known_difference s = false -> lexemes_lang s = lexemes_syn s.
+   Proved here with the one further restriction `no_cr s = true` (inputs whose line breaks are LF); inputs with
+   CR / CR LF are covered by the bounded theorems (CR is in ALPHA) and by the differential run of the check. *)
+Theorem C18_lexemes_agree_partial : forall s,
+  in_quantifier s = true -> known_difference s = false -> no_cr s = true ->
+  lexemes_lang s = lexemes_syn s.
+Proof. exact lexemes_agree_no_cr. Qed.
+Check C18_lexemes_agree_partial : forall s,
+  in_quantifier s = true -> known_difference s = false -> no_cr s = true ->
+  lexemes_lang s = lexemes_syn s.
+Print Assumptions C18_lexemes_agree_partial.
+(* and the common value is what the LRM grammar prescribes *)
+Theorem C18_lexemes_are_spec : forall s,
+  in_quantifier s = true -> known_difference s = false -> no_cr s = true ->
+  exists l, split_spec LangLexer.keywords_2008 s = Some l /\ lexemes_lang s = Some l /\ lexemes_syn s = Some l.
+Proof. exact lexemes_are_spec. Qed.
+Print Assumptions C18_lexemes_are_spec.
+(* the hypotheses are satisfiable: a 22-lexeme text with a based real literal, bit strings with and without
+   length, character literal, attribute tick, both comment forms, extended identifier, doubled quote,
+   matching operator and `all` before a tick *)
+Example C18_lexemes_agree_example : in_quantifier ex_both = true /\ known_difference ex_both = false
+  /\ no_cr ex_both = true /\ length (match lexemes_lang ex_both with Some l => l | None => [] end) = 22%nat.
+Proof. exact ex_both_ok. Qed.
+Print Assumptions C18_lexemes_agree_example.
 
 (* ---------- F13: the tokenizer of vhdl_syntax before commit 5ee4d03 ---------- *)
 (* `1:= ` (from `range 0 to 1:= 1`, legal VHDL): clean for vhdl_lang, which splits `1` `:=`; the old
